@@ -183,7 +183,7 @@ theorem low_pkt (s0 s : St) (fsz out : Int) (b : SizeBudget) (hst : stOk s0 = tr
   have hs := hst
   unfold stOk at hs
   simp only [decide_eq_true_eq] at hs
-  obtain ⟨h1, _, _, _, _, _, _, h8, h9, _, _, _, h13⟩ := hs
+  obtain ⟨h1, h2c, -, -, -, -, -, h8, h9, -, -, -, h13, -⟩ := hs
   have hent : 1 ≤ out ∧ ¬ (out = 1 ∧ s.fs = fsz * 10) := by
     unfold entryCheck at he
     dsimp only at he
@@ -197,7 +197,7 @@ theorem low_pkt (s0 s : St) (fsz out : Int) (b : SizeBudget) (hst : stOk s0 = tr
         · omega
         · intro ⟨ha, hb⟩; apply h3; exact ⟨by omega, hb⟩
   obtain ⟨f1, f2, f3, f4, f5⟩ := lowToc_wf s fsz out (by rw [hfs]; exact h1) (by rw [hfs]; exact hlg)
-    (by rw [hmd]; exact h13) (by rw [hbw]; exact h9) (by rw [hsc]; exact h8) hent.2
+    (by rw [hmd]; exact Or.inr h13) (by rw [hbw]; exact h9) (by rw [hsc]; omega) hent.2
   have hfr : 1 ≤ s.fs / fsz := by
     have hfs0 : 0 < s0.fs := by omega
     obtain ⟨hf0, _⟩ := legal_le s0.fs fsz hfs0 hlg
@@ -227,6 +227,305 @@ theorem low_pkt (s0 s : St) (fsz out : Int) (b : SizeBudget) (hst : stOk s0 = tr
       rw [← hsz]
   · rw [if_neg hv]
     exact ⟨⟨(lowRet0 s fsz out).toNat, false, f5⟩, by dsimp only; omega, f1, f2, hall, f3, f4⟩
+
+
+theorem outRange_code0 (toc L : Nat) (pad : Bool) :
+    outRange toc [L] (L + 1) pad = .ok { size := L + 1, hdr := [toc] } := by
+  rw [outRange, if_neg (by omega), if_neg (by omega)]
+
+theorem combo_of (mode fs fsz bw sbw : Int)
+    (hfs5 : fs = 8000 ∨ fs = 12000 ∨ fs = 16000 ∨ fs = 24000 ∨ fs = 48000)
+    (hl : 400 * fsz = fs ∨ 200 * fsz = fs ∨ 100 * fsz = fs ∨ 50 * fsz = fs ∨ 25 * fsz = fs ∨ 50 * fsz = 3 * fs ∨
+          50 * fsz = 4 * fs ∨ 50 * fsz = 5 * fs ∨ 50 * fsz = 6 * fs)
+    (hmode : mode = 1000 ∨ mode = 1001 ∨ mode = 1002) (hbwd : 1101 ≤ sbw ∧ sbw ≤ 1105)
+    (hb1 : mode ≠ 1000 → bw = sbw) (hb2 : mode = 1000 → bw = 1101 ∨ bw = 1102 ∨ bw = 1103)
+    (hwH : mode = 1001 → 1104 ≤ sbw) (hshort : mode ≠ 1002 → fs / 100 ≤ fsz)
+    (hnm : ¬ ((fsz > fs / 50 ∧ mode ≠ 1000) ∨ fsz > 3 * fs / 50)) : ComboOk mode fs fsz bw := by
+  unfold ComboOk
+  rcases hmode with hm | hm | hm
+  · left
+    have := hb2 hm
+    have := hshort (by omega)
+    refine ⟨hm, by omega, by omega, ?_⟩
+    rcases hfs5 with h | h | h | h | h <;> subst h <;> omega
+  · right; left
+    have := hb1 (by omega)
+    have := hwH hm
+    have := hshort (by omega)
+    refine ⟨hm, by omega, by omega, ?_⟩
+    rcases hfs5 with h | h | h | h | h <;> subst h <;> omega
+  · right; right
+    have := hb1 (by omega)
+    refine ⟨hm, by omega, by omega, ?_⟩
+    rcases hfs5 with h | h | h | h | h <;> subst h <;> omega
+
+/-- Single-frame path: the packet is a repacketiser-contract output (code 0, or code 3 with padding
+    in CBR) for a ToC announcing the submitted frame size. -/
+theorem single_pkt (s0 s1 : St) (fuzz : Bool) (o : NatOr) (fsz out m isSil : Int) (fo : FrameOr) (okb : Bool)
+    (hfs5 : s0.fs = 8000 ∨ s0.fs = 12000 ∨ s0.fs = 16000 ∨ s0.fs = 24000 ∨ s0.fs = 48000)
+    (hlg : legalFrame s0.fs fsz = true) (hfs : s1.fs = s0.fs)
+    (hs : Settings s1) (hb : BwOk s1.bandwidth) (hm1 : 3 ≤ m) (hm2 : m ≤ 1276)
+    (hnm : ¬ isMulti (decide' s1 fuzz o fsz m).st fsz = true)
+    (hok : frameOk (decide' s1 fuzz o fsz m).st (singleIn (decide' s1 fuzz o fsz m) isSil fsz m) fo = true) :
+    PktOk s0.fs fsz
+      (singleRes (frameNative (decide' s1 fuzz o fsz m).st (singleIn (decide' s1 fuzz o fsz m) isSil fsz m) fo) okb) := by
+  have hpre := decide'_pre s1 fuzz o fsz m isSil hs hb hm1 hm2
+  have hpost := frameNative_post _ _ fo hpre hok
+  obtain ⟨hsame, hmode, hbwd, hwS, hwH, hshort⟩ := decide'_spec s1 fuzz o fsz m hs hb
+  have hdfs : (decide' s1 fuzz o fsz m).st.fs = s0.fs := by rw [hsame.cfg.fs, hfs]
+  have hmi : (singleIn (decide' s1 fuzz o fsz m) isSil fsz m).maxDataBytes = m := rfl
+  have hfi : (singleIn (decide' s1 fuzz o fsz m) isSil fsz m).frameSize = fsz := rfl
+  unfold isMulti at hnm
+  simp only [decide_eq_true_eq] at hnm
+  generalize decide' s1 fuzz o fsz m = d at *
+  generalize frameNative d.st (singleIn d isSil fsz m) fo = r at *
+  obtain ⟨p1, p2, p3, p4, p5, p6, p7, ⟨bw, ht, hb1, hb2⟩, p9⟩ := hpost
+  rw [hmi] at p3 p6
+  rw [hfi, hdfs] at ht
+  rw [hfs] at hshort
+  rw [hdfs] at hnm
+  have hl := legal_fsz s0.fs fsz hlg
+  -- the (mode, frame size, bandwidth) combination is a legal one
+  have hcombo : ComboOk d.st.mode s0.fs fsz bw :=
+    combo_of d.st.mode s0.fs fsz bw d.st.bandwidth hfs5 hl hmode hbwd hb1 hb2 hwH hshort hnm
+  obtain ⟨t1, t2, t3, t4⟩ := toc_wf s0.fs fsz d.st.mode bw d.st.streamChannels hfs5 hcombo
+  rw [← ht] at t1 t2 t3 t4
+  have hd48 : frameDur48 r.toc * 1 ≤ 5760 := by
+    have hle : fsz ≤ 3 * s0.fs / 50 := by omega
+    rcases hfs5 with h | h | h | h | h <;> rw [h] at t4 hle <;> omega
+  unfold singleRes
+  refine ⟨?_, by dsimp only; omega, t1, t2, ?_, by simpa using hd48, by simpa using t3⟩
+  · dsimp only
+    by_cases hd : r.dtx = true
+    · obtain ⟨d1, d2, d3⟩ := p5 hd
+      refine ⟨1, false, ?_⟩
+      rw [d1, d2, d3]
+      exact outRange_code0 r.toc 0 false
+    · have hd' : r.dtx = false := by simpa using hd
+      by_cases hv : d.st.useVbr = 0
+      · obtain ⟨c1, c2, c3⟩ := p6 hv hd'
+        have hLL : ((r.payload.toNat : Nat) : Int) + 1 = r.payload + 1 := by omega
+        rcases padSpec_shape r.toc [r.payload.toNat] (r.payload + 1) m (by simp) (by intro l hl; simp at hl; omega)
+          (by simp [baseSize]; omega) c3 with ⟨heq, hnone⟩ | ⟨q, hq, hsome, hsz⟩
+        · refine ⟨r.payload.toNat + 1, false, ?_⟩
+          rw [c2]
+          unfold cbrHdr
+          rw [hnone, c1]
+          have : m.toNat = r.payload.toNat + 1 := by omega
+          rw [this]
+          exact outRange_code0 r.toc r.payload.toNat false
+        · refine ⟨m.toNat, true, ?_⟩
+          rw [c2]
+          unfold cbrHdr
+          rw [hsome, hq, c1]
+          dsimp only
+          rw [← hsz]
+      · obtain ⟨v1, v2⟩ := p7 hv hd'
+        refine ⟨r.payload.toNat + 1, false, ?_⟩
+        rw [v2, v1]
+        have : (r.payload + 1).toNat = r.payload.toNat + 1 := by omega
+        rw [this]
+        exact outRange_code0 r.toc r.payload.toNat false
+  · intro l hl
+    simp only [List.mem_singleton] at hl
+    omega
+
+
+theorem combo_multi (mode fs encFs bw sbw : Int)
+    (hmode : mode = 1000 ∨ mode = 1001 ∨ mode = 1002) (hbwd : 1101 ≤ sbw ∧ sbw ≤ 1105)
+    (hb1 : mode ≠ 1000 → bw = sbw) (hb2 : mode = 1000 → bw = 1101 ∨ bw = 1102 ∨ bw = 1103)
+    (hwH : mode = 1001 → sbw = 1104 ∨ sbw = 1105)
+    (henc : encFs = 8 * (fs / 400) ∨ (mode = 1000 ∧ (encFs = 16 * (fs / 400) ∨ encFs = 24 * (fs / 400)))) :
+    ComboOk mode fs encFs bw := by
+  unfold ComboOk
+  rcases hmode with hm | hm | hm
+  · left; have := hb2 hm; exact ⟨hm, by omega, by omega, by omega⟩
+  · right; left; have := hb1 (by omega); have := hwH hm; exact ⟨hm, by omega, by omega, by omega⟩
+  · right; right; have := hb1 (by omega); exact ⟨hm, by omega, by omega, by omega⟩
+
+/-- Multi-frame path: the repacketised packet is a repacketiser-contract output for a ToC announcing
+    the sub-frame size, with `nb_frames` frames totalling the submitted frame size. -/
+theorem multi_pkt (s : St) (fuzz : Bool) (fsz out : Int) (o : NatOr)
+    (he : entryCheck s fsz out = none) (htm : takesMulti s fuzz fsz out o = true)
+    (hst : stOk s = true) (hlg : legalFrame s.fs fsz = true)
+    (hmok : (multiOf s fuzz fsz out o).ok = true) : PktOk s.fs fsz (multiOf s fuzz fsz out o) := by
+  obtain ⟨_, hpk, hnf, hpre, hdfs⟩ := multi_branch s fuzz fsz out o he htm hst hlg hmok
+  obtain ⟨hfs5, _, _⟩ := stOk_fs s hst
+  generalize multiOf s fuzz fsz out o = r at *
+  generalize decOf s fuzz fsz out o = d at *
+  generalize ctxOf s fuzz fsz out o = c at *
+  obtain ⟨⟨bw, ht, hb1, hb2⟩, hlen, hlens, ⟨pad, hout⟩, hsize⟩ := hpk
+  obtain ⟨hmode, hbwS, hbwH, hbwC, ⟨hn2, hn6⟩, _, _, _, henc⟩ := hpre
+  rw [hdfs] at ht henc
+  have hcombo : ComboOk d.st.mode s.fs c.encFs bw := by
+    unfold ModeOk at hmode
+    unfold BwOk at hbwC
+    simp only [MODE_SILK_ONLY, MODE_HYBRID, MODE_CELT_ONLY, BW_NB, BW_MB, BW_WB, BW_SWB, BW_FB] at *
+    exact combo_multi d.st.mode s.fs c.encFs bw d.st.bandwidth hmode hbwC hb1 hb2 hbwH henc
+  obtain ⟨t1, t2, t3, t4⟩ := toc_wf s.fs c.encFs d.st.mode bw d.st.streamChannels hfs5 hcombo
+  rw [← ht] at t1 t2 t3 t4
+  have hl := legal_fsz s.fs fsz hlg
+  refine ⟨⟨_, pad, hout⟩, hsize, t1, t2, hlens, ?_, ?_⟩
+  · have hnb : r.pkt.lens.length = c.nbFrames.toNat := by omega
+    rw [hnb]
+    have hcases : c.nbFrames = 2 ∨ c.nbFrames = 3 ∨ c.nbFrames = 4 ∨ c.nbFrames = 5 ∨ c.nbFrames = 6 := by omega
+    have key : (frameDur48 r.pkt.tocCfg : Int) * c.nbFrames ≤ 5760 := by
+      rcases hfs5 with h | h | h | h | h <;> rw [h] at t4 hl <;>
+        rcases hcases with h' | h' | h' | h' | h' <;> rw [h'] at hnf ⊢ <;> omega
+    have : ((frameDur48 r.pkt.tocCfg * c.nbFrames.toNat : Nat) : Int) ≤ 5760 := by
+      push_cast
+      rw [show ((c.nbFrames.toNat : Nat) : Int) = c.nbFrames by omega]
+      exact key
+    exact_mod_cast this
+  · rw [hlen, t3]; exact hnf
+
+
+theorem outCode3_hdr_le (cfg : Nat) (lens : List Nat) (maxlen : Nat) (pad : Bool) (r : OutRes)
+    (h : outCode3 cfg lens maxlen pad = .ok r) : r.hdr.length + sumN lens ≤ r.size := by
+  unfold outCode3 at h
+  dsimp only at h
+  generalize hvbr : (!allEq (lens.headD 0) lens) = vbr at h
+  have htot : (if vbr = true then 2 + vbrBody lens else lens.length * lens.headD 0 + 2) =
+      2 + (if vbr = true then (vbrLens lens).length else 0) + sumN lens := by
+    cases vbr
+    · simp only [Bool.false_eq_true, if_false]
+      have : allEq (lens.headD 0) lens = true := by simpa using hvbr
+      rw [allEq_sum _ _ this]; omega
+    · simp only [if_true]; rw [vbrBody_eq]; omega
+  rw [htot] at h
+  generalize htv : 2 + (if vbr = true then (vbrLens lens).length else 0) + sumN lens = tot at h
+  split at h
+  · cases h
+  · generalize hpa : (if pad = true then maxlen - tot else 0) = pa at h
+    by_cases hpa0 : pa = 0
+    · rw [if_neg (by simp [hpa0])] at h
+      cases h
+      cases vbr <;> simp at htv ⊢ <;> omega
+    · rw [if_pos (by simpa using hpa0)] at h
+      split at h
+      · cases h
+      · cases h
+        have := padLenBytes_length pa
+        cases vbr <;> simp [this] at htv ⊢ <;> omega
+
+theorem outRange_hdr_le (cfg : Nat) (lens : List Nat) (maxlen : Nat) (pad : Bool) (r : OutRes)
+    (h : outRange cfg lens maxlen pad = .ok r) : r.hdr.length + sumN lens ≤ r.size := by
+  match lens with
+  | [] => simp [outRange] at h
+  | [l0] =>
+    rw [outRange] at h
+    split at h
+    · cases h
+    · split at h
+      · exact outCode3_hdr_le _ _ _ _ _ h
+      · cases h; simp; omega
+  | [l0, l1] =>
+    rw [outRange] at h
+    split at h
+    · split at h
+      · cases h
+      · split at h
+        · exact outCode3_hdr_le _ _ _ _ _ h
+        · cases h; simp; omega
+    · dsimp only at h
+      generalize htt : l0 + l1 + 2 + (if l0 ≥ 252 then 1 else 0) = tt at h
+      split at h
+      · cases h
+      · split at h
+        · exact outCode3_hdr_le _ _ _ _ _ h
+        · cases h
+          have : (Framing.encodeSize l0).length = if l0 < 252 then 1 else 2 := by
+            unfold Framing.encodeSize; split <;> simp
+          simp [this]
+          split at htt <;> split <;> omega
+  | a :: b :: c :: rest =>
+    rw [outRange] at h
+    · exact outCode3_hdr_le _ _ _ _ _ h
+    all_goals simp
+
+theorem PktOk.withOk {fs fsz : Int} {r : NatRes} (h : PktOk fs fsz r) (b : Bool) : PktOk fs fsz { r with ok := b } :=
+  ⟨h.out, h.size, h.toc4, h.toc256, h.lens, h.dur48, h.dur⟩
+
+/-- Every success return of `opus_encode_native`: the emitted packet structure. -/
+theorem encodeNative_pkt (s : St) (fuzz : Bool) (fsz out : Int) (o : NatOr)
+    (he : entryCheck s fsz out = none) (hok : (encodeNative s fuzz fsz out o).ok = true) :
+    PktOk s.fs fsz (encodeNative s fuzz fsz out o) := by
+  unfold encodeNative at hok ⊢
+  rw [he] at hok ⊢
+  dsimp only at hok ⊢
+  have hout : 1 ≤ out := by
+    unfold entryCheck at he
+    dsimp only at he
+    split at he
+    · cases he
+    · omega
+  have hbs := budgetSt_same s o fsz out
+  have hfs1 : (budgetSt s o fsz out).fs = s.fs := by unfold BudSame at hbs; rw [hbs]
+  have hmd1 : (budgetSt s o fsz out).mode = s.mode := by unfold BudSame at hbs; rw [hbs]
+  have hbw1' : (budgetSt s o fsz out).bandwidth = s.bandwidth := by unfold BudSame at hbs; rw [hbs]
+  have hsc1 : (budgetSt s o fsz out).streamChannels = s.streamChannels := by unfold BudSame at hbs; rw [hbs]
+  by_cases hg : lowBudgetGate (budgetSt s o fsz out) fsz (sizeBudget (analysisUpd s o) fsz out) = true
+  · rw [if_pos hg] at hok ⊢
+    dsimp only at hok
+    simp only [Bool.and_eq_true] at hok
+    obtain ⟨hb1, _, _, _⟩ := budget_spec s o fsz out hok.1 hok.2 hout
+    exact (low_pkt s _ fsz out _ hok.1 hok.2 he hfs1 hmd1 hbw1' hsc1 hb1).withOk _
+  · rw [if_neg hg] at hok ⊢
+    by_cases hm : isMulti (decide' (budgetSt s o fsz out) fuzz o fsz
+        (sizeBudget (analysisUpd s o) fsz out).maxDataBytes).st fsz = true
+    · rw [if_pos hm] at hok ⊢
+      dsimp only at hok ⊢
+      simp only [Bool.and_eq_true] at hok
+      have htm : takesMulti s fuzz fsz out o = true := by unfold takesMulti; simp [hg, hm]
+      exact (multi_pkt s fuzz fsz out o he htm hok.1.1 hok.1.2 hok.2).withOk _
+    · rw [if_neg hm] at hok ⊢
+      unfold singleRes at hok
+      dsimp only at hok
+      simp only [Bool.and_eq_true] at hok
+      obtain ⟨⟨hst, hlg⟩, hfok⟩ := hok
+      obtain ⟨hb1, hb2, _, _⟩ := budget_spec s o fsz out hst hlg hout
+      obtain ⟨hset, hbw⟩ := stOk_settings s hst
+      obtain ⟨hset1, hbw1⟩ := hbs.settings hset hbw
+      obtain ⟨hfs5, _, _⟩ := stOk_fs s hst
+      have hm3 : 3 ≤ (sizeBudget (analysisUpd s o) fsz out).maxDataBytes := by
+        unfold lowBudgetGate at hg
+        simp only [decide_eq_true_eq] at hg
+        omega
+      exact single_pkt s _ fuzz o fsz out _ _ _ _ hfs5 hlg hfs1 hset1 hbw1 hm3 (by omega) hm hfok
+
+/-- **encode_wellformed.**  For every success return, ANY frame contents of the recorded lengths:
+    `header ++ frames ++ zero padding` parses (C06 parser) to exactly those frames, consumes exactly
+    `ret` bytes, and announces `count · samples_per_frame(Fs) = frame_size`. -/
+theorem encode_parses (s : St) (fuzz : Bool) (fsz out : Int) (o : NatOr)
+    (he : entryCheck s fsz out = none) (hok : (encodeNative s fuzz fsz out o).ok = true)
+    (frames : List Bytes) (hfl : frames.map List.length = (encodeNative s fuzz fsz out o).pkt.lens) :
+    ∃ v, Framing.parseImpl false
+        (pktBytes (encodeNative s fuzz fsz out o).pkt.hdr frames (encodeNative s fuzz fsz out o).pkt.size) = .ok v ∧
+      v.sizes = (encodeNative s fuzz fsz out o).pkt.lens ∧
+      (v.count : Int) * Framing.samplesPerFrame v.toc s.fs.toNat = fsz ∧
+      (v.packetOffset : Int) = (encodeNative s fuzz fsz out o).ret ∧
+      (pktBytes (encodeNative s fuzz fsz out o).pkt.hdr frames (encodeNative s fuzz fsz out o).pkt.size).length =
+        v.packetOffset := by
+  have hp := encodeNative_pkt s fuzz fsz out o he hok
+  generalize encodeNative s fuzz fsz out o = r at *
+  obtain ⟨⟨maxlen, pad, hout⟩, hsize, h4, h256, hlens, hd48, hdur⟩ := hp
+  obtain ⟨v, hv, hs, hc, ht, hpo⟩ := outRange_parses r.pkt.tocCfg r.pkt.lens maxlen pad _ frames hfl h4 h256 hlens hd48 hout
+  have hle := outRange_hdr_le r.pkt.tocCfg r.pkt.lens maxlen pad _ hout
+  dsimp only at hv hpo
+  refine ⟨v, hv, hs, ?_, ?_, hpo.symm⟩
+  · have hspf : Framing.samplesPerFrame v.toc s.fs.toNat = Framing.samplesPerFrame r.pkt.tocCfg s.fs.toNat := by
+      unfold Framing.samplesPerFrame
+      have e1 : v.toc / 128 = r.pkt.tocCfg / 128 := by omega
+      have e2 : v.toc / 32 = r.pkt.tocCfg / 32 := by omega
+      have e3 : v.toc / 8 = r.pkt.tocCfg / 8 := by omega
+      rw [e1, e2, e3]
+    rw [hspf, hc]; exact hdur
+  · rw [hpo, ← hsize]
+    dsimp only at hle
+    unfold pktBytes
+    have hfl' : frames.flatten.length = sumN r.pkt.lens := by rw [flatten_length, hfl]
+    simp only [List.length_append, List.length_replicate]
+    omega
 
 
 end Opus.EncSkel.Proofs
